@@ -21,6 +21,7 @@ const (
 	vFRoles   = "roles"
 	vFBoss    = "boss"
 	vFReports = "reports"
+	vFTitle   = "title"
 	vRootPath = "vroot"
 )
 
@@ -30,6 +31,7 @@ type vEmp struct {
 	Nick  *string
 	Roles []string
 	Boss  *string
+	Title *string // optional; when given it must be non-empty (SetRequiredString)
 }
 
 func (e *vEmp) GetId() string         { return e.Id }
@@ -45,9 +47,15 @@ func (vEmpStrategy) FillEntity(e *vEmp, b *TypedBucket) {
 	e.Nick = b.GetString(vFNick)
 	e.Roles = b.GetStringList(vFRoles)
 	e.Boss = b.GetString(vFBoss)
+	e.Title = b.GetString(vFTitle)
 }
 
 func (vEmpStrategy) PersistEntity(e *vEmp, ctx *PersistContext) {
+	if e.Title != nil {
+		// validated by the setter itself: the rejection travels through the
+		// bucket's error holder while later fields are still being persisted
+		ctx.SetRequiredString(vFTitle, *e.Title)
+	}
 	ctx.SetString(vFName, e.Name)
 	ctx.SetStringP(vFNick, e.Nick)
 	ctx.SetStringList(vFRoles, e.Roles)
